@@ -112,3 +112,56 @@ func (q *queue) VerifC18SetRequestTime(id string, t time.Time) bool {
 func (r *fetchResult) VerifC18Header() *types.Header     { return r.Header }
 func (r *fetchResult) VerifC18Txs() types.Transactions   { return r.Transactions }
 func (r *fetchRequest) VerifC18Headers() []*types.Header { return r.Headers }
+
+// ---- end-to-end campaign: the real fetchBodies / fetchParts loop -------------------
+
+// VerifC18SetTiming shortens the package's timing tunables (already variables)
+// so that request expiry happens within a few hundred milliseconds.
+func VerifC18SetTiming(rttMin, rttMax, ttlMax time.Duration) {
+	rttMinEstimate, rttMaxEstimate, ttlLimit = rttMin, rttMax, ttlMax
+}
+
+// VerifC18BeginSync does what synchronise() does before syncWithPeer: fresh
+// queue, cancel channel, master peer, FullSync, result offset origin+1.
+func (d *Downloader) VerifC18BeginSync(master string, origin uint64, cacheItems int) {
+	blockCacheItems = cacheItems
+	d.queue = newQueue()
+	d.queue.Reset()
+	d.peers.Reset()
+	d.cancelLock.Lock()
+	d.cancelCh = make(chan struct{})
+	d.cancelPeer = master
+	d.cancelLock.Unlock()
+	d.mode = FullSync
+	d.queue.Prepare(origin+1, d.mode)
+}
+
+func (d *Downloader) VerifC18Queue() *queue      { return d.queue }
+func (d *Downloader) VerifC18FetchBodies() error { return d.fetchBodies() }
+func (d *Downloader) VerifC18ProcessFullSyncContent(origin uint64) error {
+	return d.processFullSyncContent(origin)
+}
+func (d *Downloader) VerifC18RequestTTL() time.Duration { return d.requestTTL() }
+
+// VerifC18WakeBodies is what processHeaders does after scheduling a batch
+// (cont=true, non blocking) and at the end of the header stream (cont=false).
+func (d *Downloader) VerifC18WakeBodies(cont bool) {
+	if cont {
+		select {
+		case d.bodyWakeCh <- true:
+		default:
+		}
+		return
+	}
+	select {
+	case d.bodyWakeCh <- false:
+	case <-d.cancelCh:
+	}
+}
+
+var (
+	VerifC18ErrNoPeers          = errNoPeers
+	VerifC18ErrPeersUnavailable = errPeersUnavailable
+	VerifC18ErrTimeout          = errTimeout
+	VerifC18ErrCanceled         = errCanceled
+)
